@@ -316,7 +316,7 @@ def run_case(ctx, case):
                 if any(":=" in b or ":-" in b for b in called):
                     kind = "amend-via-" + kind
             # hidden representation: same canonical value, different array dtype in A and in the rebuilt twin
-            reps = sorted({"%s/%s" % (pre[n][1].split(":")[-1], pre_b[n][1].split(":")[-1]) for n in pre
+            reps = sorted({"%s/%s" % (pre[n][1].split(":", 1)[-1], pre_b[n][1].split(":", 1)[-1]) for n in pre
                            if n in pre_b and pre[n][1] != pre_b[n][1] and n.split("`")[0] in _idents(s["text"])})
             sig = "%s|%s|%s|%s" % (kind, viol[0], prov, "repr:" + ",".join(reps) if reps else "same-repr")
             res["violations"].append({"sig": sig, "what": "statement #%d `%s`: %s" % (i, s["text"], viol[1]),
